@@ -129,11 +129,14 @@ func (fr *Frame) callInner(in ssa.Instruction, c *ssa.CallCommon, st *State, pc 
 		vc.havocAllHeaps(st)
 		vc.noteOpaque(calleeName, c, "all heaps havoced ("+eff.why+")")
 	} else {
-		for _, h := range eff.sorted() {
-			vc.havocHeap(st, h)
-		}
+		preSt := st.clone()
 		if len(eff.heaps) > 0 || eff.allocs {
 			vc.bumpWatermark(st)
+		}
+		for _, h := range eff.sorted() {
+			vc.havocHeapKeepOld(st, preSt, h, pc)
+		}
+		if false {
 		}
 		vc.noteOpaque(calleeName, c, "effect set "+strings.Join(eff.sorted(), ","))
 	}
@@ -439,10 +442,10 @@ func (fr *Frame) modularCall(fc *FuncContract, callee *ssa.Function, c *ssa.Call
 		if eff.top {
 			vc.havocAllHeaps(st)
 		} else {
-			for _, h := range eff.sorted() {
-				vc.havocHeap(st, h)
-			}
 			vc.bumpWatermark(st)
+			for _, h := range eff.sorted() {
+				vc.havocHeapKeepOld(st, pre, h, pc)
+			}
 		}
 	} else {
 		vc.havocAllHeaps(st)
